@@ -113,6 +113,22 @@ pub fn index_biased(rng: &mut Rng, sw: &Swarm, sut: &Sut, def: &TableDef, ix: &I
         4 => format!("{} = NULL", lead),
         _ => format!("{} {} {}", lead, rng.pick(&Cmp::ALL).sql(), lit(rng)),
     };
+    if rng.chance(1, 4) {
+        // ORDER BY exactly the index's key columns (all of them or a leading part) in the declared
+        // directions, selecting only those columns: the sequence is fully determined by the ORDER BY, and
+        // this is the shape for which an index may claim to deliver the order
+        let n = if rng.chance(4, 5) { ix.cols.len() } else { 1 + rng.usize(ix.cols.len()) };
+        let keys: Vec<String> = ix.cols[..n].iter().map(|(c, _, d)| format!("{}{}", c, if *d { " DESC" } else { "" })).collect();
+        let sel: Vec<&str> = ix.cols[..n].iter().map(|(c, _, _)| c.as_str()).collect();
+        // (rows with NULL keys make the engine re-sort: half of the probes keep them out)
+        let w = match rng.below(4) {
+            0 => format!(" WHERE {}", p),
+            1 | 2 => format!(" WHERE {}", sel.iter().map(|c| format!("{} IS NOT NULL", c)).collect::<Vec<_>>().join(" AND ")),
+            _ => String::new(),
+        };
+        let sql = format!("SELECT {} FROM {}{} ORDER BY {}", sel.join(", "), def.name, w, keys.join(", "));
+        return Probe { sql, total_order: true, shape: "index_key_order" };
+    }
     if ix.cols.len() > 1 && rng.chance(1, 2) {
         let c2 = &ix.cols[1].0;
         let ci2 = def.col_index(c2).unwrap_or(0);
